@@ -86,6 +86,7 @@ GEN_QUICK = ["Symbols_Gen_witness", "Symbols_Genq_scope", "Symbols_Genq_temp", "
 GEN_THOROUGH = ["Symbols_Gen_witness", "Symbols_Gent_scope", "Symbols_Gent_temp", "Symbols_Gent_stack",
                 "Symbols_Gent_macro"]
 DIALECTS = ("z80", "68000")
+TREE_DEVS = set()        # deviations of the pinned tree that the replay has seen the tree under test exhibit
 PASS_CAP = "12"          # ASL_VERIF_MAX_PASSES: a program that needs more passes exits with status 97
 
 
@@ -174,7 +175,7 @@ def generate(rep, tier):
             r.printed = []
             rep.part("Symbols_Gen(%s)" % c, programs=len(got))
             yield c, got
-    nsim = 320 if tier == "quick" else 3000
+    nsim = 800 if tier == "quick" else 3000
     for cfg, share in (("Symbols_Sim.cfg", 0.45), ("Symbols_SimScope.cfg", 0.35), ("Symbols_SimStack.cfg", 0.2)):
         with Phase("TLC: simulate long programs (%s)" % cfg):
             r = tlc.must(tlc.run("Symbols_Gen", cfg, workers=4, simulate=max(1, int(nsim * share) // 4), depth=45,
@@ -202,13 +203,17 @@ def judge(rep, beh, dia, src, opts, res):
         # conform, and the assembler did precisely what the model of the pinned tree does
         as_model = (res.rc in (0, 2)) and ((M["errs"] > 0) == (res.rc == 2)) and (res.rc == 2 or got == M["words"])
         key = {"kind": kind, "cause": cause[0] if (len(cause) == 1 and as_model) else "", "devs": devs}
+        if key["cause"]:
+            TREE_DEVS.add(key["cause"])
         case["observed"] = {"rc": res.rc, "words": got}
         rep.violation(what, case=case, files=files, key=key)
 
     if res.rc == 97 and not res.timeout:
         case["observed"] = {"rc": 97}
-        rep.violation("the pass loop does not end (more than %s passes)" % PASS_CAP, case=case, files=files,
-                      key={"kind": "passes", "cause": cause[0] if (len(cause) == 1 and M["repass"]) else "", "devs": devs})
+        key = {"kind": "passes", "cause": cause[0] if (len(cause) == 1 and M["repass"]) else "", "devs": devs}
+        if key["cause"]:
+            TREE_DEVS.add(key["cause"])
+        rep.violation("the pass loop does not end (more than %s passes)" % PASS_CAP, case=case, files=files, key=key)
         return
     if res.timeout or res.sig is not None or res.rc not in (0, 2):
         viol("crash", "assembler did not end normally (rc=%s signal=%s timeout=%s)" % (res.rc, res.sig, res.timeout))
@@ -322,7 +327,7 @@ def extra_pass(rep, bld, behs):
 def validate_generated(rep, bld, behs, tier):
     if not bld.hooks:
         return
-    limit = 300 if tier == "quick" else 6000
+    limit = 500 if tier == "quick" else 6000
     r0 = rng("c13/tracesel")
     pool = [b for b in behs if not b["exp"]["silent"]]
     if len(pool) > limit:
@@ -358,8 +363,11 @@ def validate_generated(rep, bld, behs, tier):
         return tracecheck.validate("Symbols_Trace", xs, reset={"a": "RESET", "cs": False, "devs": []},
                                    timeout=1700, mem="6g")
     with Phase("validate %d executions" % len(execs)):
-        # all recordings against the machine of the pinned tree.  A text with a deviation pattern may be rejected
-        # because the tree carries a repair: such a recording is taken out and tried with the repaired machines.
+        # all recordings against the machine with those deviations of the pinned tree that the replay of the witness
+        # texts has just seen the tree exhibit (none on a repaired tree).  A text with a deviation pattern that is
+        # still rejected is taken out and tried with the other machines.
+        pinned_all = pinned
+        pinned = [d for d in pinned_all if d in TREE_DEVS]
         todo = list(range(len(execs)))
         tot = [0, 0, 0]
         fail = None
@@ -373,7 +381,8 @@ def validate_generated(rep, bld, behs, tier):
             i = todo[v.fail_exec]
             devs = owner[i][0]["exp"]["devs"]
             ok = False
-            for cd in ([[d for d in pinned if d not in devs]] + [[d for d in pinned if d != x] for x in devs]) if devs else []:
+            for cd in ([pinned_all, [d for d in pinned_all if d not in devs]]
+                       + [[d for d in pinned_all if d != x] for x in devs]) if devs else []:
                 w = run([execs[i]], cd)
                 tot = [tot[0] + w.events, tot[1] + w.states, tot[2] + w.generated]
                 if w.accepted:
@@ -392,7 +401,7 @@ def validate_generated(rep, bld, behs, tier):
             v.accepted = True
         v.events, v.states, v.generated = tot
         v.executions = nval
-    rep.part("Symbols_Trace(generated)", events=v.events, executions=v.executions, accepted=v.accepted,
+    rep.part("Symbols_Trace(generated)", machine_devs=pinned, events=v.events, executions=v.executions, accepted=v.accepted,
              distinct_states=v.states, wall_s=v.wall)
     rep.cov["states"] += v.states
     rep.cov["transitions"] += v.generated
